@@ -9,7 +9,7 @@
 EXTENDS Integers, Sequences, TLC
 CONSTANTS NB, MaxLen
 VARIABLES ops, cur, f
-Fields == <<"kind", "chain", "r", "w", "wb", "kh", "kw", "s", "pt", "pl", "pb", "pr", "blk", "lut", "lay", "tile", "tileo", "hi", "shift", "w1">>
+Fields == <<"kind", "chain", "r", "w", "wb", "kh", "kw", "s", "pt", "pl", "pb", "pr", "blk", "lut", "lay", "tile", "tileo", "hi", "shift", "w1", "sc2", "rev">>
 Vals(fld) ==
   CASE fld = "kind" -> {"dma", "pool", "ew", "conv", "dw", "lutdma"}
     [] fld = "chain" -> 0..1          \* 1: read what the previous operation wrote (producer/consumer pair)
@@ -27,6 +27,8 @@ Vals(fld) ==
     [] fld = "tileo" -> 0..1          \* OFM split by height
     [] fld = "hi" -> 0..1             \* (first operation only) buffers above 4 GiB on Ethos-U65
     [] fld = "w1" -> 0..1             \* 1: give a single weight/scale range even on a two-core accelerator
+    [] fld = "sc2" -> 0..2            \* scale of the second elementwise operand: equal / smaller / larger than the first
+    [] fld = "rev" -> 0..1            \* elementwise: reversed operand order
     [] fld = "shift" -> 0..7          \* >= 4: the IFM starts that many rows into the buffer (aliases the tail of what a
                                       \* producer wrote there without being the same feature map)
 Init == ops = <<>> /\ cur = <<>> /\ f = 1
